@@ -469,6 +469,24 @@ func c03Sequences(r *vf.Run) {
 						}
 					}
 				}
+				// one query object edited in place and re-executed on the cached index (stale keys memoised in the object
+				// would hand out the result of what the object meant before)
+				if len(qs) > 3 {
+					e := qs[(len(cid)*7)%len(qs)].e.Clone()
+					uq := &updog.Query{Expr: e.ToUpdog()}
+					for k := 0; k < 10; k++ {
+						want := oracle.Eval(ds.Rows, ds.Cols, e, uq.GroupBy)
+						res, err := idx.Execute(uq)
+						r.Eval(1)
+						r.Count("executions_of_an_edited_query_object", 1)
+						if diff := oracle.CompareResult(res, err, want, uq.GroupBy); diff != "" {
+							r.Violation(cid+"/edited-object", "answer", map[string]any{"difference": diff, "expr_now": e.String(), "edits_so_far": k, "capacity_bytes": cp.size, "mode": mode,
+								"explanation": "one Query object executed, edited in place (leaf value, operand appended/replaced/removed) and executed again on an index with a result cache"})
+							break
+						}
+						editInPlace(rng, e, uq, ds)
+					}
+				}
 				idx.Close()
 				if len(spy.mutated) > 0 {
 					r.Violation(cid, "cached-bitmap-changed", map[string]any{"observations": spy.mutated[:min(len(spy.mutated), 5)], "capacity_bytes": cp.size, "mode": mode})
